@@ -97,6 +97,9 @@ func (e editor) leaf(from *Selection, to *Selection, m meta.Leafable, new bool, 
 	}
 
 	if hnd.Val != nil {
+		if err := e.keepsEntryKey(to, m, hnd.Val); err != nil {
+			return err
+		}
 		// If there is a different choice selected, need to clear it
 		// first if in upsert mode
 		if strategy == editUpsert {
@@ -108,6 +111,30 @@ func (e editor) leaf(from *Selection, to *Selection, m meta.Leafable, new bool, 
 		r.From = from
 		if err := to.set(&r, &hnd); err != nil {
 			return err
+		}
+	}
+	return nil
+}
+
+// keepsEntryKey refuses a value for a key leaf of the list entry an edit is addressed at that is not
+// the key the entry was selected by: the entry would show another key than the one it is filed under, and a second entry
+// with that key may exist already.
+func (e editor) keepsEntryKey(to *Selection, m meta.Leafable, v val.Value) error {
+	// only the entry the edit is addressed at: below it, entries are selected by the keys the
+	// source reports and a source is free to show something else in its key leaves
+	if !to.InsideList || to.Path == nil || to.Path != e.basePath || to.Path.Key == nil {
+		return nil
+	}
+	list, isList := to.Path.Meta.(*meta.List)
+	if !isList {
+		return nil
+	}
+	for i, k := range list.KeyMeta() {
+		if k != m || i >= len(to.Path.Key) || to.Path.Key[i] == nil {
+			continue
+		}
+		if has := to.Path.Key[i]; !val.Equal(has, v) && has.String() != v.String() {
+			return fmt.Errorf("%w. entry %s of list %s cannot be given %s as its key '%s'", fc.ConflictError, has, list.Ident(), v, k.Ident())
 		}
 	}
 	return nil
